@@ -24,6 +24,7 @@ from .. import sym, vec
 from ..tree import sx, walk, pp, strip_casts, const_value
 from .C20 import deep_unwrap
 from . import geo
+from .. import alg
 
 LEVEL = 'other'
 UNITS = ['src/geodesy/ECEFConverter.cpp', 'src/geodesy/EarthEllipsoid.cpp', 'src/geodesy/GeodeticCoordinates.cpp']
@@ -77,19 +78,19 @@ def run(fx, R, tier, lat_deg=None, heights=None):
     n = P.diff(h)
     affine = sp.simplify(P.diff(h, 2)) == sp.zeros(3, 1)
     unit = sp.simplify(n.dot(n) - 1)
-    R.check(affine and unit == 0, 'F1', 'ECEFConverter::toECEF:unit-normal', 'components are not affine in the altitude with a unit direction: |n|^2 - 1 = %s' % unit,
-            'P(h) = P0 + h n, |n| = 1', loc, 'E-ALG')
+    alg.check_zero(R, sp.Matrix(list(P.diff(h, 2)) + [unit]), 'F1', 'ECEFConverter::toECEF:unit-normal', 'components are not affine in the altitude with a unit direction: |n|^2 - 1 = %s' % unit,
+                   'P(h) = P0 + h n, |n| = 1', loc)
     P0 = P.subs(h, 0)
     b2 = a ** 2 * (1 - e2)
     onell = sp.simplify((P0[0] ** 2 + P0[1] ** 2) / a ** 2 + P0[2] ** 2 / b2 - 1)
-    R.check(onell == 0, 'F1', 'ECEFConverter::toECEF:on-ellipsoid', 'at altitude 0: (X^2+Y^2)/a^2 + Z^2/b^2 - 1 = %s (should vanish)' % onell, 'altitude 0 lies on the ellipsoid', loc, 'E-ALG')
+    alg.check_zero(R, onell, 'F1', 'ECEFConverter::toECEF:on-ellipsoid', 'at altitude 0: (X^2+Y^2)/a^2 + Z^2/b^2 - 1 = %s (should vanish)' % onell, 'altitude 0 lies on the ellipsoid', loc)
     grad = sp.Matrix([P0[0] / a ** 2, P0[1] / a ** 2, P0[2] / b2])
     par = sp.simplify(grad.cross(n))
-    R.check(par == sp.zeros(3, 1), 'F1', 'ECEFConverter::toECEF:normal-direction', 'ellipsoid gradient x altitude direction = %s (should vanish)' % (par.T.tolist(),),
-            'altitude direction = ellipsoid normal', loc, 'E-ALG')
+    alg.check_zero(R, par, 'F1', 'ECEFConverter::toECEF:normal-direction', 'ellipsoid gradient x altitude direction = %s (should vanish)' % (par.T.tolist(),),
+                   'altitude direction = ellipsoid normal', loc)
     want_n = sp.Matrix([sp.cos(lat) * sp.cos(lon), sp.cos(lat) * sp.sin(lon), sp.sin(lat)])
-    R.check(sp.simplify(n - want_n) == sp.zeros(3, 1), 'F1', 'ECEFConverter::toECEF:latlon-roles', 'altitude direction is %s, expected (cos lat cos lon, cos lat sin lon, sin lat)' % (n.T.tolist(),),
-            'normal at (lat, lon)', loc, 'E-ALG')
+    alg.check_zero(R, sp.simplify(n - want_n), 'F1', 'ECEFConverter::toECEF:latlon-roles', 'altitude direction is %s, expected (cos lat cos lon, cos lat sin lon, sin lat)' % (n.T.tolist(),),
+                   'normal at (lat, lon)', loc)
     check_inverse(fx, R, finv, fwd)
 
 
@@ -146,7 +147,7 @@ def check_inverse(fx, R, f, fwd):
             R.undecided('F2', 'ECEFConverter::toWGS84:longitude', 'longitude / norm not interpretable')
             continue
         nn = sp.simplify(substitute(normv) ** 2 - ((N + h) * sp.cos(lat)) ** 2)
-        R.check(nn == 0, 'F2', 'ECEFConverter::toWGS84:norm', 'norm^2 - ((N+h) cos lat)^2 = %s after substituting the forward map' % nn, 'norm = (N+h) cos(lat)', loc, 'E-ALG')
+        alg.check_zero(R, nn, 'F2', 'ECEFConverter::toWGS84:norm', 'norm^2 - ((N+h) cos lat)^2 = %s after substituting the forward map' % nn, 'norm = (N+h) cos(lat)', loc)
         ysym = [sy for sy in lonv.free_symbols if sy.name == 'ecefPosition[1]']
         if not ysym:
             # constant (or Y-independent) longitude on this path
@@ -168,12 +169,12 @@ def check_inverse(fx, R, f, fwd):
             q = sp.simplify(q.subs(sp.sqrt(sp.expand(substitute(normv) ** 2)), (N + h) * sp.cos(lat)))
             qq = sp.simplify(replace_norm(q, substitute(normv), (N + h) * sp.cos(lat)))
             res = sp.simplify(sp.trigsimp(qq - sp.sin(lon) / (1 + sp.cos(lon))))
-            R.check(res == 0, 'F2', 'ECEFConverter::toWGS84:longitude', 'Y/(X+norm) - tan(lon/2) = %s after substituting the forward map (should vanish)' % res, '2 atan(Y/(X+norm)) = lon', loc, 'E-ALG')
+            alg.check_zero(R, res, 'F2', 'ECEFConverter::toWGS84:longitude', 'Y/(X+norm) - tan(lon/2) = %s after substituting the forward map (should vanish)' % res, '2 atan(Y/(X+norm)) = lon', loc)
         elif lv.func == sp.atan2:
             yy, xx = lv.args
             res = sp.simplify(yy * sp.cos(lon) - xx * sp.sin(lon))
             pos_ok = sp.simplify(yy / sp.sin(lon) - (N + h) * sp.cos(lat)) == 0
-            R.check(res == 0 and pos_ok, 'F2', 'ECEFConverter::toWGS84:longitude', 'atan2(%s, %s) is not the longitude' % (yy, xx), 'atan2(Y, X) = lon', loc, 'E-ALG')
+            alg.check_zero(R, sp.Matrix([res, sp.simplify(yy - (N + h) * sp.cos(lat) * sp.sin(lon))]), 'F2', 'ECEFConverter::toWGS84:longitude', 'atan2(%s, %s) is not the longitude' % (yy, xx), 'atan2(Y, X) = lon', loc)
         else:
             R.undecided('F2', 'ECEFConverter::toWGS84:longitude', 'longitude form not recognised: %s' % lonv)
     # ---- latitude iteration: fixed point ------------------------------------------------------
@@ -199,8 +200,8 @@ def check_inverse(fx, R, f, fwd):
         return
     arg = replace_norm(substitute(new_lat.args[0]), substitute(normv), (N + h) * sp.cos(lat))
     res = sp.simplify(arg - sp.tan(lat))
-    R.check(res == 0, 'F2', 'ECEFConverter::toWGS84:latitude-fixed-point', 'with the forward map substituted the update gives tan(lat\') - tan(lat) = %s at the true latitude (should vanish)' % res,
-            'true latitude is a fixed point of the update', loc, 'E-ALG')
+    alg.check_zero(R, res, 'F2', 'ECEFConverter::toWGS84:latitude-fixed-point', 'with the forward map substituted the update gives tan(lat\') - tan(lat) = %s at the true latitude (should vanish)' % res,
+                   'true latitude is a fixed point of the update', loc)
     R.check(isinstance(init_lat, sp.Basic) and init_lat.func == sp.atan, 'F3', 'ECEFConverter::toWGS84:latitude-range', 'initial latitude is %s' % init_lat, 'every latitude definition is an atan value',
             loc, 'E-INT')
     # exit condition monotone in |delta|
@@ -248,7 +249,7 @@ def check_inverse(fx, R, f, fwd):
             continue
         av = replace_norm(substitute(altv), substitute(normv), (N + h) * sp.cos(lat))
         res = sp.simplify(av - h)
-        R.check(res == 0, 'F2', 'ECEFConverter::toWGS84:altitude', 'altitude - h = %s after substituting the forward map at the true latitude (should vanish)' % res, 'norm/cos(lat) - N = h', loc, 'E-ALG')
+        alg.check_zero(R, res, 'F2', 'ECEFConverter::toWGS84:altitude', 'altitude - h = %s after substituting the forward map at the true latitude (should vanish)' % res, 'norm/cos(lat) - N = h', loc)
         r = st.ret
         ok = isinstance(r, dict) and r.get('latitude') == lat and isinstance(r.get('longitude'), sp.Basic) and r.get('altitude') == altv
         if isinstance(r, dict):
